@@ -99,6 +99,10 @@ func main() {
 		os.Exit(2)
 	}
 	cmd, name := os.Args[1], os.Args[2]
+	if cmd == "dictdump" {
+		dictDump(os.Args[2:])
+		return
+	}
 	p, ok := props[name]
 	if !ok {
 		fmt.Fprintln(os.Stderr, "unknown property", name)
